@@ -12,14 +12,34 @@
 // tree, with the x solve delayed (y completes first), the y solve delayed (x completes first) and
 // random delays on both.  Without H1 those runs are skipped and counted.
 //
+// Perturbation of dead memory: before every run the harness overwrites the dead part of the stack (a
+// 256 KiB frame), the stacks of two helper threads (the cached stacks the solver threads get) and a
+// set of freed heap blocks with a pattern that changes from run to run (plausible floats / small
+// integers in-process; byte patterns 0x00, 0xFF, 0xA5 and random words in forked grandchildren, where
+// a crash of the perturbed run is itself a difference to the reference).  In builds without a
+// sanitizer (tools/props/C08.py builds a second, `fast` harness) glibc's M_PERTURB is switched per
+// run as well.  A result that depends on an indeterminate value therefore differs between runs.
+//
+// Stream `o` (run order / call history): 2-3 jobs (circuit, stage sequence, parameters; the jobs differ
+// in noise - distinct non-zero values -, seed, effort, global / legalization / detailed knobs, and
+// share the circuit in half of the cases).  Each job runs alone in a fresh forked process, and all
+// jobs run in two different orders in two more fresh processes; the result of every job must be
+// the same in all of them (the first run in a process must not fix anything for the later ones).
+//
+// Parameters cover the non-default box accepted by ColoquinteParameters::check():
+// nbInitialSteps > 0, nbStepsBeforeRoughLegalization, tolerances, penalty / continuous-model /
+// rough-legalization knobs, all net models and cost models (measured in the distribution).
+//
 // The op stream is small: the driver enumerates the schedules of the two-task protocol
 // (Model/Sched.lean, facts from Gen/Async.lean) and, for every forced order observed through H1,
 // states that this linearisation gives the canonical result; the harness answers from its own
 // enumeration and from the bitwise comparison.
+#include <malloc.h>
 #include <sched.h>
 
 #include <atomic>
 #include <chrono>
+#include <cmath>
 #include <cstring>
 #include <optional>
 #include <thread>
@@ -34,10 +54,105 @@ using fp::ChildOut;
 using fp::Job;
 using fp::mkJob;
 
+// ------------------------------------------------------------------ perturbation of dead memory
+
+#if defined(__SANITIZE_ADDRESS__) || defined(__SANITIZE_THREAD__)
+#define C08_PLAIN_MALLOC 0
+#else
+#define C08_PLAIN_MALLOC 1
+#endif
+
+enum class Pat { Float, SmallInt, Zero, Ones, A5, Random };
+
+struct Perturb {
+  Pat pat = Pat::Float;
+  uint64_t v = 0;  // selects the value / the random stream
+  uint32_t word(size_t i) const {
+    switch (pat) {
+      case Pat::Float: {
+        // a plausible positive float (0.25 .. ~2000), different for every v
+        float f = 0.25f * (float)(1 + v % 97) * (float)(1u << (v / 97 % 7));
+        uint32_t w;
+        memcpy(&w, &f, 4);
+        return w;
+      }
+      case Pat::SmallInt: return (uint32_t)(v % 61);
+      case Pat::Zero: return 0;
+      case Pat::Ones: return 0xFFFFFFFFu;
+      case Pat::A5: return 0xA5A5A5A5u;
+      case Pat::Random: {
+        uint64_t z = (v + i) * 0x9E3779B97F4A7C15ull;
+        z = (z ^ (z >> 30)) * 0xBF58476D1CE4E5B9ull;
+        return (uint32_t)(z >> 17);
+      }
+    }
+    return 0;
+  }
+  const char *name() const {
+    static const char *n[] = {"float", "small_int", "zero_bytes", "ff_bytes", "a5_bytes", "random_words"};
+    return n[(int)pat];
+  }
+};
+
+static constexpr size_t kStackWords = 64 * 1024;  // 256 KiB of dead stack below the caller
+
+__attribute__((noinline)) static void scribbleStack(const Perturb &pt) {
+  volatile uint32_t buf[kStackWords];
+  for (size_t i = 0; i < kStackWords; ++i) buf[i] = pt.word(i);
+  asm volatile("" ::: "memory");
+}
+
+__attribute__((noinline)) static void scribbleHeap(const Perturb &pt) {
+  static const size_t sizes[] = {8, 16, 24, 32, 48, 64, 96, 128, 192, 256, 384, 512, 1024, 2048, 4096, 8192, 16384, 65536, 262144};
+  std::vector<std::pair<uint32_t *, size_t>> blocks;
+  for (int rep = 0; rep < 6; ++rep)
+    for (size_t sz : sizes) {
+      if (sz >= 65536 && rep >= 2) continue;
+      uint32_t *b = (uint32_t *)malloc(sz);
+      if (!b) continue;
+      for (size_t i = 0; i < sz / 4; ++i) b[i] = pt.word(i);
+      blocks.emplace_back(b, sz);
+    }
+  // free every other block first so that neighbours do not coalesce immediately
+  for (size_t i = 0; i < blocks.size(); i += 2) free(blocks[i].first);
+  for (size_t i = 1; i < blocks.size(); i += 2) free(blocks[i].first);
+}
+
+static std::atomic<uint64_t> gPerturbSerial{0};
+static Pat gPerturbPat = Pat::Float;      // pattern family of the in-process perturbation
+static bool gPerturbAlternate = true;     // alternate Float / SmallInt from run to run
+
+// overwrite what a later run may find in indeterminate objects: dead stack of this thread, the cached
+// stacks of (two concurrent) helper threads, freed heap blocks; plain glibc malloc: M_PERTURB as well
+static void perturbDeadMemory() {
+  Perturb pt;
+  uint64_t n = gPerturbSerial.fetch_add(1);
+  pt.v = n * 7 + 3;
+  pt.pat = gPerturbPat;
+  if (gPerturbAlternate) pt.pat = (n % 3 == 2) ? Pat::SmallInt : Pat::Float;
+#if C08_PLAIN_MALLOC
+  // malloc'ed memory is filled with ~byte, freed memory with byte; 0 switches the filling off (then the
+  // patterns written by scribbleHeap are what the next allocation finds)
+  int byte = 0;
+  if (pt.pat == Pat::Ones) byte = 0x100;  // non-zero value whose low byte is 0x00: allocations are filled with 0xFF
+  else if (pt.pat == Pat::A5) byte = 0x5A;
+  else if (pt.pat == Pat::Random) byte = 1 + (int)(pt.v % 254);
+  else if (pt.pat == Pat::Zero) byte = 0xFF;
+  else if (n % 2 == 1) byte = 1 + (int)(pt.v % 254);
+  mallopt(M_PERTURB, byte);
+#endif
+  scribbleHeap(pt);
+  std::thread t1([&] { scribbleStack(pt); }), t2([&] { scribbleStack(pt); });
+  t1.join();
+  t2.join();
+  scribbleStack(pt);
+}
+
 // ------------------------------------------------------------------ runs
 
 struct RunResult {
-  std::string text;  // per stage: outcome + solution
+  std::string text;   // per stage: outcome + solution
+  std::string trace;  // observing runs: step kind + hash of the exported placement at every callback
   bool operator==(const RunResult &o) const { return text == o.text; }
 };
 
@@ -115,11 +230,14 @@ static RunResult runSeq(Circuit c, const std::string &seq, const ColoquinteParam
   long long observed = 0;
   std::optional<PlacementCallback> cb;
   if (observe)
-    cb = [&](PlacementStep) {
-      // an observer: reads everything a client may read during a callback
+    cb = [&](PlacementStep s) {
+      // an observer: reads everything a client may read during a callback; the exported intermediate
+      // placements are part of what the placement produces
       observed += c.hpwl() + (long long)c.solution().size();
+      r.trace += std::to_string((int)s) + ":" + std::to_string(vh::hashStr(vc::solutionString(c))) + ",";
     };
   for (char st : seq) {
+    perturbDeadMemory();
     std::string res = stageRun(c, st, p, cb, force, rnd);
     r.text += std::string(1, st) + ":" + res + " " + vc::solutionString(c) + "|";
   }
@@ -153,13 +271,121 @@ static bool pin(bool single, int cpuHint) {
   return sched_setaffinity(0, sizeof all, &all) == 0;
 }
 
-static ColoquinteParameters pickParams(vh::Rng &g) {
-  ColoquinteParameters p = vc::genParams(g, g.chance(1, 2));
-  p.seed = g.range(0, 100000);
-  p.global.maxNbSteps = std::min<int>(p.global.maxNbSteps, g.range(4, 14));
-  if (p.global.nbInitialSteps >= p.global.maxNbSteps) p.global.nbInitialSteps = p.global.maxNbSteps - 1;
-  if (g.chance(1, 3)) p.global.noise = g.range(1, 100) / 1000.0;  // exercises rgen_
+static double uni(vh::Rng &g, double lo, double hi) { return lo + (hi - lo) * (g.range(0, 1 << 20) / (double)(1 << 20)); }
+static double logUni(vh::Rng &g, double lo, double hi) { return std::exp(uni(g, std::log(lo), std::log(hi))); }
+
+// Parameter sets accepted by ColoquinteParameters::check().  mode 0: defaults of an effort; 1: detailed /
+// legalization knobs; 2..3: + the global knobs (same "moderate" box as C06/C07: CG tolerance >= 1e-6,
+// approximation / cutoff distances >= 0.1).  The number of steps is kept small (time), everything else
+// covers the accepted range.
+static ColoquinteParameters pickParams(vh::Rng &g, int &mode) {
+  for (int attempt = 0; attempt < 50; ++attempt) {
+    mode = g.range(0, 3);
+    ColoquinteParameters p = vc::genParams(g, mode >= 1);
+    p.seed = g.range(0, 100000);
+    p.global.maxNbSteps = std::min<int>(p.global.maxNbSteps, g.range(4, 14));
+    if (g.chance(1, 3)) p.global.noise = g.range(1, 100) / 1000.0;  // exercises rgen_
+    if (mode >= 1) {
+      if (g.chance(1, 6)) p.detailed.nbPasses = 0;
+      if (g.chance(1, 6)) p.detailed.localSearchNbNeighbours = 0;
+      if (g.chance(1, 6)) p.detailed.shiftMaxNbCells = g.range(0, 1);
+      if (g.chance(1, 6)) p.detailed.reorderingMaxNbCells = 0;
+    }
+    if (mode >= 2) {
+      auto &G = p.global;
+      G.maxNbSteps = g.range(2, 14);
+      G.nbInitialSteps = g.chance(1, 4) ? 0 : g.range(1, std::min(4, G.maxNbSteps - 1));
+      G.nbStepsBeforeRoughLegalization = g.range(1, 3);
+      G.gapTolerance = g.chance(1, 3) ? 0.0 : uni(g, 0.0, 1.0);
+      G.distanceTolerance = g.chance(1, 3) ? 0.0 : logUni(g, 0.01, 100.0);
+      G.penaltyUpdateDistance = logUni(g, 0.01, 1000.0);
+      G.penaltyUpdateBackoff = g.chance(1, 4) ? 1.0 : uni(g, 1.0, 10.0);
+      G.exportBlending = g.chance(1, 4) ? (double)g.range(0, 1) : uni(g, -0.5, 1.5);
+      int nz = g.range(0, 3);
+      G.noise = nz == 0 ? 0.0 : nz == 1 ? G.noise : logUni(g, 1e-4, 2.0);
+      auto &CM = G.continuousModel;
+      CM.netModel = (NetModelOption)g.range(0, 3);
+      CM.approximationDistance = logUni(g, 0.1, 1000.0);
+      CM.approximationDistanceUpdateFactor = uni(g, 0.8, 1.2);
+      CM.maxNbConjugateGradientSteps = g.chance(1, 4) ? g.range(1, 5) : g.range(1, 1000);
+      CM.conjugateGradientErrorTolerance = logUni(g, 1e-6, 1.0);
+      auto &R = G.roughLegalization;
+      R.costModel = (LegalizationModel)g.range(0, 5);
+      R.nbSteps = g.range(0, 3);
+      R.binSize = g.chance(1, 4) ? (double)g.range(1, 25) : uni(g, 1.0, 25.0);
+      R.lineReoptSize = g.chance(1, 8) ? g.range(1, 64) : g.range(1, 5);
+      R.lineReoptOverlap = R.lineReoptSize > 1 ? g.range(1, R.lineReoptSize - 1) : g.range(1, 3);
+      R.diagReoptSize = g.chance(1, 8) ? g.range(1, 64) : g.range(1, 5);
+      R.diagReoptOverlap = R.diagReoptSize > 1 ? g.range(1, R.diagReoptSize - 1) : g.range(1, 3);
+      R.squareReoptSize = g.range(1, g.chance(1, 4) ? 8 : 3);
+      R.squareReoptOverlap = R.squareReoptSize > 1 ? g.range(1, R.squareReoptSize - 1) : g.range(1, 3);
+      R.unidimensionalTransport = g.chance(1, 2);
+      R.quadraticPenalty = g.chance(1, 3) ? 0.0 : logUni(g, 1e-5, 1.0);
+      R.sideMargin = g.chance(1, 3) ? 0.0 : uni(g, 0.0, 1.5);
+      R.coarseningLimit = logUni(g, 1.0, 1000.0);
+      R.targetBlending = uni(g, -0.1, 0.9);
+      auto &P = G.penalty;
+      P.cutoffDistance = logUni(g, 0.1, 1000.0);
+      P.cutoffDistanceUpdateFactor = uni(g, 0.8, 1.2);
+      P.areaExponent = uni(g, 0.49, 1.01);
+      P.initialValue = logUni(g, 1e-4, 10.0);
+      P.updateFactor = uni(g, 1.01, 1.99);
+      P.targetBlending = uni(g, 0.1, 1.1);
+    }
+    try {
+      p.check();
+      return p;
+    } catch (const std::exception &) {
+      // rejected by the parameter check: not in the quantifier, draw again
+    }
+  }
+  mode = 0;
+  ColoquinteParameters p(g.range(1, 9));
+  p.global.maxNbSteps = 8;
   return p;
+}
+
+static std::string paramString(const ColoquinteParameters &p, int mode) {
+  std::ostringstream os;
+  const auto &G = p.global;
+  os << "mode=" << mode << " seed=" << p.seed << " noise=" << G.noise << " steps=" << G.maxNbSteps << "/" << G.nbInitialSteps << "/"
+     << G.nbStepsBeforeRoughLegalization << " net=" << (int)G.continuousModel.netModel << " cost=" << (int)G.roughLegalization.costModel
+     << " rl=" << G.roughLegalization.nbSteps << "," << G.roughLegalization.lineReoptSize << "," << G.roughLegalization.diagReoptSize << ","
+     << G.roughLegalization.squareReoptSize << "," << G.roughLegalization.unidimensionalTransport << " cg=" << G.continuousModel.maxNbConjugateGradientSteps
+     << " blend=" << G.exportBlending << " det=" << p.detailed.nbPasses << "," << p.detailed.localSearchNbNeighbours << ","
+     << p.detailed.localSearchNbRows << "," << p.detailed.shiftNbRows << "," << p.detailed.shiftMaxNbCells << "," << p.detailed.reorderingNbRows
+     << "," << p.detailed.reorderingMaxNbCells << " leg=" << p.legalization.orderingWidth << "," << p.legalization.orderingHeight << ","
+     << p.legalization.orderingY;
+  return os.str();
+}
+
+static void countParams(ChildOut &co, const ColoquinteParameters &p, int mode, const std::string &seq) {
+  co.count("params:mode" + std::to_string(mode));
+  if (seq.find('G') == std::string::npos) return;
+  const auto &G = p.global;
+  co.count(G.nbInitialSteps > 0 ? "params:G:nbInitialSteps>0" : "params:G:nbInitialSteps=0");
+  co.count(G.nbStepsBeforeRoughLegalization > 1 ? "params:G:stepsBeforeRL>1" : "params:G:stepsBeforeRL=1");
+  co.count(G.noise == 0.0 ? "params:G:noise=0" : G.noise == GlobalPlacerParameters(3).noise ? "params:G:noise=default" : "params:G:noise=other");
+  co.count("params:G:netModel=" + std::to_string((int)G.continuousModel.netModel));
+  co.count("params:G:costModel=" + std::to_string((int)G.roughLegalization.costModel));
+}
+
+// run f in a fresh forked process; "ok" + its text, or how the process ended
+static std::string forked(const std::function<std::string()> &f, std::string &text) {
+  std::string diag;
+  std::string how = vh::isolated([&](std::ostream &os) { os << f(); }, text, 240, &diag);
+  if (how != "ok") {
+    std::string first;
+    std::istringstream is(diag);
+    std::string l;
+    while (std::getline(is, l))
+      if (l.find("Assertion") != std::string::npos || l.find("ERROR") != std::string::npos || l.find("runtime error") != std::string::npos) {
+        first = l.substr(0, 200);
+        break;
+      }
+    text = first;
+  }
+  return how;
 }
 
 static void detCase(ChildOut &co, const std::string &id, vh::Rng &g, bool thoroughTier) {
@@ -171,10 +397,11 @@ static void detCase(ChildOut &co, const std::string &id, vh::Rng &g, bool thorou
   Circuit other = vc::genCircuit(g, o, nullptr);
   static const std::vector<std::string> seqs = {"G", "G", "L", "D", "GL", "GLD", "LD", "GG"};
   std::string seq = g.pick(seqs);
-  ColoquinteParameters p = pickParams(g);
-  ColoquinteParameters pOther = pickParams(g);
+  int mode = 0, modeOther = 0;
+  ColoquinteParameters p = pickParams(g, mode);
+  ColoquinteParameters pOther = pickParams(g, modeOther);
   std::ostringstream hdr;
-  hdr << "stages=" << seq << " seed=" << p.seed << " noise=" << p.global.noise << "|";
+  hdr << "stages=" << seq << " " << paramString(p, mode) << "|";
   std::string input = hdr.str() + vc::circuitString(c);
   auto expect = [&](const char *what, const RunResult &ref, const RunResult &got) {
     co.eval();
@@ -185,10 +412,19 @@ static void detCase(ChildOut &co, const std::string &id, vh::Rng &g, bool thorou
   co.impl("case " + id);
   RunResult ref = runSeq(c, seq, p, false);
   co.count("stages:" + seq);
+  countParams(co, p, mode, seq);
   co.count(ref.text.find("throw") == std::string::npos ? "outcome:all_returned" : "outcome:some_stage_threw");
   expect("repeat", ref, runSeq(c, seq, p, false));
   expect("rebuilt_circuit", ref, runSeq(rebuild(c), seq, p, false));
-  expect("observing_callback", ref, runSeq(c, seq, p, true));
+  {
+    RunResult o1 = runSeq(c, seq, p, true);
+    expect("observing_callback", ref, o1);
+    RunResult o2 = runSeq(c, seq, p, true);
+    co.eval();
+    co.count("compared:observing_callback_trace_repeat");
+    if (o1.trace != o2.trace || !(o1 == o2))
+      co.fail("two runs with the same observing callback were shown different intermediate placements | first " + o1.trace + " | second " + o2.trace, input);
+  }
   // permuted order in one process: other-then-c and c-then-other
   RunResult refOther = runSeq(other, "GL", pOther, false);
   expect("after_other_run", ref, runSeq(c, seq, p, false));
@@ -231,11 +467,187 @@ static void detCase(ChildOut &co, const std::string &id, vh::Rng &g, bool thorou
     }
   }
 #else
-  (void)thoroughTier;
   if (hasG) co.count("forced_order_skipped_no_hook_H1");
 #endif
+  // the same run in fresh forked processes whose dead stack / freed heap (plain malloc: M_PERTURB too) hold
+  // byte patterns: an abnormal end of such a run is a difference to the reference as well
+  {
+    std::vector<Pat> pats = {Pat::Zero, Pat::Ones, Pat::A5, Pat::Random};
+    if (!thoroughTier) {
+      size_t keep = g.range(0, 3);
+      pats = {pats[keep], pats[(keep + 1 + g.range(0, 2)) % 4]};
+    }
+    for (Pat pt : pats) {
+      uint64_t serial = g.next() >> 8;
+      std::string text;
+      std::string how = forked([&] {
+        gPerturbPat = pt;
+        gPerturbAlternate = false;
+        gPerturbSerial = serial;
+        return runSeq(c, seq, p, false).text;
+      }, text);
+      Perturb name;
+      name.pat = pt;
+      co.eval();
+      co.count(std::string("compared:forked_perturbed_") + name.name());
+      if (how == "timeout") {
+        co.count("forked_run_timeout");
+        continue;
+      }
+      if (how != "ok")
+        co.fail(std::string("the reference run returned, the same run in a forked process with perturbed dead memory (") + name.name() +
+                    ") ended by " + how + ": " + text + " | reference " + ref.text, input);
+      else if (text != ref.text)
+        co.fail(std::string("result differs from the reference run: forked process with perturbed dead memory (") + name.name() +
+                    ") | reference " + ref.text + " | got " + text, input);
+    }
+  }
   co.nontrivial(vh::hashStr(input));
   co.sample(id + ": " + hdr.str() + " cells=" + std::to_string(c.nbCells()) + " movable=" + std::to_string(gi.nMovable) + " " + ref.text.substr(0, 120));
+}
+
+// ------------------------------------------------------------------ stream o: run order / call history
+
+struct HJob {
+  Circuit c{0};
+  std::string seq;
+  ColoquinteParameters p;
+  int mode = 0;
+};
+
+static void orderCase(ChildOut &co, const std::string &id, vh::Rng &g, bool thoroughTier) {
+  (void)thoroughTier;
+  vc::GenOpts o;
+  o.maxCells = g.chance(1, 3) ? 30 : 15;
+  o.maxRows = g.chance(1, 3) ? 10 : 6;
+  int n = g.chance(1, 4) ? 3 : 2;
+  bool sameCircuit = g.chance(1, 2);
+  // which part of the flow the jobs exercise: global placement (+ legalization, detailed) or the detailed side only
+  static const std::vector<std::string> seqsG = {"G", "GL", "GLD", "GG"}, seqsD = {"L", "LD", "D", "LD"};
+  bool globalSide = g.chance(2, 3);
+  std::vector<HJob> jobs((size_t)n);
+  Circuit shared = vc::genCircuit(g, o, nullptr);
+  std::string sharedSeq = g.pick(globalSide ? seqsG : seqsD);
+  std::vector<double> usedNoise;
+  auto makeJob = [&](int j) {
+    HJob &hj = jobs[j];
+    hj.c = sameCircuit ? shared : vc::genCircuit(g, o, nullptr);
+    hj.seq = sameCircuit ? sharedSeq : g.pick(globalSide ? seqsG : seqsD);
+    hj.p = pickParams(g, hj.mode);
+    if (sameCircuit && j > 0 && g.chance(1, 2)) hj.p.seed = jobs[0].p.seed;  // then only the knobs differ
+    // distinct non-zero noise values (the default 1e-4 for at most one job), so that anything a first run
+    // keeps from its parameters is wrong for the next one
+    if (globalSide && g.chance(7, 8)) {
+      for (int t = 0; t < 20; ++t) {
+        double nz = (j == 0 && g.chance(1, 3)) ? GlobalPlacerParameters(3).noise : logUni(g, 1e-3, 1.5);
+        bool fresh = true;
+        for (double u : usedNoise) fresh = fresh && u != nz;
+        if (fresh) {
+          hj.p.global.noise = nz;
+          break;
+        }
+      }
+    }
+  };
+  uint64_t serialBase = g.next() >> 16;
+  // the process runs the jobs in the given order and reports one line per job
+  auto runOrder = [&](const std::vector<int> &order) {
+    // every process starts with other patterns in its dead memory
+    uint64_t h = serialBase;
+    for (int j : order) h = h * 31 + (uint64_t)j + 1;
+    gPerturbSerial = h % 1000003;
+    std::string outText;
+    for (int j : order) outText += std::to_string(j) + "\t" + runSeq(jobs[j].c, jobs[j].seq, jobs[j].p, false).text + "\n";
+    return outText;
+  };
+  co.op("case " + id);
+  co.impl("case " + id);
+  // every job alone in a fresh process; a job that does not return on its own (assertion / sanitizer stop inside
+  // the real code: C07's subject) is drawn again, at most three times
+  std::vector<std::string> alone((size_t)n);
+  for (int j = 0; j < n; ++j) {
+    bool usable = false;
+    for (int attempt = 0; attempt < 4 && !usable; ++attempt) {
+      makeJob(j);
+      std::string text;
+      std::string how = forked([&] { return runOrder({j}); }, text);
+      if (how != "ok") {
+        co.count("o:job_alone_ended_by_" + how + "_redrawn");
+        continue;
+      }
+      size_t t = text.find('\t');
+      alone[j] = t == std::string::npos ? "" : text.substr(t + 1, text.find('\n') - t - 1);
+      usable = true;
+    }
+    if (!usable) {
+      co.count("o:skipped_case");
+      return;
+    }
+    usedNoise.push_back(jobs[j].p.global.noise);
+    co.count(alone[j].find("throw") == std::string::npos ? "o:outcome:all_returned" : "o:outcome:some_stage_threw");
+  }
+  std::ostringstream hdr;
+  hdr << "jobs=" << n << " same_circuit=" << sameCircuit << "|";
+  for (int j = 0; j < n; ++j) hdr << "job" << j << ": stages=" << jobs[j].seq << " " << paramString(jobs[j].p, jobs[j].mode) << "|";
+  std::string input = hdr.str();
+  for (int j = 0; j < n; ++j)
+    if (j == 0 || !sameCircuit) input += "circuit of job" + std::to_string(j) + (sameCircuit ? " (all jobs)" : "") + ":|" + vc::circuitString(jobs[j].c);
+  co.count(std::string("o:jobs=") + std::to_string(n));
+  co.count(sameCircuit ? "o:same_circuit" : "o:different_circuits");
+  co.count(globalSide ? "o:global_side" : "o:detailed_side");
+  bool noiseDiffer = true;
+  for (int j = 0; j < n; ++j) {
+    countParams(co, jobs[j].p, jobs[j].mode, jobs[j].seq);
+    co.count("o:stages:" + jobs[j].seq);
+    for (int k = 0; k < j; ++k) noiseDiffer = noiseDiffer && jobs[j].p.global.noise != jobs[k].p.global.noise;
+    noiseDiffer = noiseDiffer && jobs[j].p.global.noise > 0;
+  }
+  if (globalSide) co.count(noiseDiffer ? "o:noise_distinct_nonzero" : "o:noise_not_all_distinct_nonzero");
+  std::vector<std::vector<int>> orders;
+  {
+    std::vector<int> fwd, rev;
+    for (int j = 0; j < n; ++j) fwd.push_back(j), rev.insert(rev.begin(), j);
+    orders = {fwd, rev};
+    if (n == 3) orders.push_back(g.chance(1, 2) ? std::vector<int>{1, 0, 2} : std::vector<int>{2, 0, 1});
+    if (g.chance(1, 3)) {  // a job twice in one process, around another one
+      std::vector<int> tw = {0, n - 1, 0};
+      orders.push_back(tw);
+    }
+  }
+  for (const auto &order : orders) {
+    std::string oname = "order " + vh::join(order, ",");
+    std::string text;
+    std::string how = forked([&] { return runOrder(order); }, text);
+    co.eval();
+    co.count("compared:o:orders");
+    if (how == "timeout") {
+      co.count("forked_run_timeout");
+      continue;
+    }
+    if (how != "ok") {
+      co.fail("every job returns when run alone in a fresh process, the process running them in " + oname + " ended by " + how + ": " + text, input);
+      continue;
+    }
+    // a job may appear twice: every occurrence must give the result of the job alone
+    std::istringstream is(text);
+    std::string l;
+    size_t pos = 0;
+    while (std::getline(is, l)) {
+      size_t t = l.find('\t');
+      if (t == std::string::npos) continue;
+      int j = atoi(l.c_str());
+      std::string got = l.substr(t + 1);
+      co.eval();
+      co.count("compared:o:job_results");
+      if (j < 0 || j >= n || got != alone[j])
+        co.fail("the result of job" + std::to_string(j) + " depends on what ran before it in the process: position " + std::to_string(pos) + " of " +
+                    oname + " | alone in a fresh process " + (j >= 0 && j < n ? alone[j] : "?") + " | got " + got, input);
+      ++pos;
+    }
+    if (pos != order.size()) co.fail("process running " + oname + " reported " + std::to_string(pos) + " results", input);
+  }
+  co.nontrivial(vh::hashStr(input));
+  co.sample(id + ": " + hdr.str().substr(0, 300));
 }
 
 // number of linearisations of the two-task protocol (independent enumeration for the summary line):
@@ -258,19 +670,72 @@ static long long countSchedules() {
   return n;
 }
 
+// ------------------------------------------------------------------ tier vg: few cases in-process, for valgrind
+//
+// tools/props/C08.py runs the sanitizer-free build under `valgrind --error-exitcode`; every case prints a marker to stderr
+// (where valgrind reports), so that a use of an uninitialised value is attributed to a case.
+static int vgMain(const vh::Args &a, vh::Out &out) {
+  long long n = a.only >= 0 ? 1 : 10;
+  std::ofstream inputs(a.out + "/vg-cases.txt");
+  int nul = open("/dev/null", O_WRONLY);
+  dup2(nul, 1);  // the library reports progress on stdout
+  for (long long k = 0; k < n; ++k) {
+    long long kk = a.only >= 0 ? a.only : k;
+    vh::Rng g = vh::Rng::forCase(a.seed ^ 0x7676ull, kk);
+    vc::GenOpts o;
+    o.maxCells = 12;
+    o.maxRows = 5;
+    Circuit c = vc::genCircuit(g, o, nullptr);
+    static const std::vector<std::string> seqs = {"G", "GL", "GLD", "LD", "G"};
+    std::string seq = g.pick(seqs);
+    int mode = 0;
+    ColoquinteParameters p = pickParams(g, mode);
+    p.global.maxNbSteps = std::min(p.global.maxNbSteps, 5);
+    if (p.global.nbInitialSteps >= p.global.maxNbSteps) p.global.nbInitialSteps = p.global.maxNbSteps - 1;
+    std::string id = "v" + std::to_string(a.seed) + "_" + std::to_string(kk);
+    std::string input = "stages=" + seq + " " + paramString(p, mode) + "|" + vc::circuitString(c);
+    for (char &ch : input)
+      if (ch == '\n') ch = '|';
+    inputs << id << "\t" << input << "\n";
+    inputs.flush();
+    std::string marker = "C08-VG-CASE " + id + "\n";
+    if (write(2, marker.data(), marker.size()) < 0) return 3;
+    gPerturbAlternate = true;
+    RunResult r1 = runSeq(c, seq, p, false);
+    RunResult r2 = runSeq(c, seq, p, true);
+    out.evaluations++;
+    out.count("vg:stages:" + seq);
+    if (!(r1 == r2)) out.fail(id, "result differs from the reference run: observing_callback (under valgrind)", input);
+  }
+  std::string marker = "C08-VG-END\n";
+  if (write(2, marker.data(), marker.size()) < 0) return 3;
+  out.finish();
+  return 0;
+}
+
 int main(int argc, char **argv) {
   vh::Args a = vh::parseArgs(argc, argv);
   vh::Out out(a.out);
   out.rule =
-      "case = circuit (vc::genCircuit) x stage sequence x parameters incl. seed/noise; every case is compared bitwise "
-      "against its reference under repeat / rebuilt circuit / observing callback / permuted run order / other seed in "
-      "between / 1-core and all-core affinity (+ forced x-first, y-first, random delays with hook H1); all cases are "
+      "stream d: case = circuit (vc::genCircuit) x stage sequence x parameters (effort defaults / detailed+legalization knobs / "
+      "global knobs of the box accepted by check(), incl. nbInitialSteps>0, all net and cost models, seed, noise); every case is "
+      "compared bitwise against its reference under repeat / rebuilt circuit / observing callback (+ its trace twice) / permuted "
+      "run order / other seed in between / 1-core and all-core affinity (+ forced x-first, y-first, random delays with hook H1) / "
+      "fresh forked processes with byte-pattern dead memory; dead stack, helper-thread stacks and freed heap are overwritten with "
+      "a different pattern before every run.  stream o: 2-3 jobs with distinct non-zero noise / seeds / knobs, each alone in a "
+      "fresh process and all of them in 2-4 orders in further fresh processes, per-job results compared.  All cases are "
       "non-trivial (a placement stage really runs); distinct by canonical text of the input";
 #ifdef COLOQUINTE_VERIF_HAS_H1
   out.notes.push_back("hook H1 present: forced-order runs executed");
 #else
   out.notes.push_back("hook H1 (fixes/hook-h1-solve-start.diff) not applied to this tree: forced-order runs skipped");
 #endif
+#if C08_PLAIN_MALLOC
+  out.notes.push_back("plain glibc malloc: M_PERTURB switched before every run");
+#else
+  out.notes.push_back("sanitizer allocator: heap perturbation limited to scribbled freed blocks (quarantine); see the `fast` build step");
+#endif
+  if (a.tier == "vg") return vgMain(a, out);
   // protocol summary for the driver
   out.ops << "case summary\n";
   out.impl << "case summary\n";
@@ -278,10 +743,10 @@ int main(int argc, char **argv) {
   out.impl << "summary schedules=" << countSchedules() << " independent=true conflicts=0 hb-matches-scheduler=true\n";
   std::vector<Job> jobs;
   auto parseId = [&](const std::string &id) {
-    if (id.size() < 3 || id[0] != 'd') return false;
+    if (id.size() < 3 || (id[0] != 'd' && id[0] != 'o')) return false;
     size_t us = id.find('_');
     if (us == std::string::npos) return false;
-    jobs.push_back(mkJob('d', strtoull(id.substr(1, us - 1).c_str(), nullptr, 10), atoll(id.c_str() + us + 1)));
+    jobs.push_back(mkJob(id[0], strtoull(id.substr(1, us - 1).c_str(), nullptr, 10), atoll(id.c_str() + us + 1)));
     return true;
   };
   if (!a.replay.empty()) {
@@ -293,17 +758,25 @@ int main(int argc, char **argv) {
     if (!a.corpus.empty())
       for (auto &ln : vh::readLines(a.corpus + "/cases.txt"))
         if (parseId(ln)) out.count("corpus");
-    long long n = a.thorough() ? 6000 : a.search() ? 800 : 400;
+    // tier `perturb`: the sanitizer-free build driven by tools/props/C08.py (oracle only)
+    long long n = a.thorough() ? 6000 : a.search() ? 800 : a.tier == "perturb" ? 1500 : 400;
+    long long no = a.thorough() ? 3000 : a.search() ? 600 : a.tier == "perturb" ? 700 : 250;
     if (a.only >= 0) jobs.push_back(mkJob('d', a.seed, a.only));
-    else
-      for (long long k = 0; k < n; ++k) jobs.push_back(mkJob('d', a.seed, k));
+    else {
+      // interleaved, so that both streams are reached early
+      for (long long k = 0; k < std::max(n, no); ++k) {
+        if (k < n) jobs.push_back(mkJob('d', a.seed, k));
+        if (k < no) jobs.push_back(mkJob('o', a.seed, k));
+      }
+    }
   }
   long ncpu = sysconf(_SC_NPROCESSORS_ONLN);
   bool th = a.thorough();
   // leave room for the two solver threads of each child
   fp::runJobs(out, jobs, (int)std::max(2l, std::min(16l, ncpu) * 3 / 4), [th](ChildOut &co, const Job &j) {
-    vh::Rng g = vh::Rng::forCase(j.seed, j.k);
-    detCase(co, j.id, g, th);
+    vh::Rng g = vh::Rng::forCase(j.seed ^ (j.stream == 'o' ? 0x6f6f6f6full : 0), j.k);
+    if (j.stream == 'o') orderCase(co, j.id, g, th);
+    else detCase(co, j.id, g, th);
   });
   out.finish();
   return 0;
